@@ -251,9 +251,12 @@ impl Interpreter {
 
                 let len = values.borrow().len();
                 for i in 0..len {
+                    // the body may have made the list shorter: stop at its current end
+                    let Some(value) = values.borrow().get(i).cloned() else {
+                        break;
+                    };
                     // inserting temporary value into env
-                    self.venv
-                        .define(element.clone(), values.borrow()[i].clone());
+                    self.venv.define(element.clone(), value);
                     // execute body
 
                     
@@ -277,7 +280,11 @@ impl Interpreter {
                     }
 
                     // get temp val out and change it in vec
-                    (*values.borrow_mut())[i] = self.venv.remove(element.clone()).unwrap().0;
+                    if let Some((value, _)) = self.venv.remove(element.clone()) {
+                        if let Some(slot) = values.borrow_mut().get_mut(i) {
+                            *slot = value;
+                        }
+                    }
                 }
 
                 assert!(self.loop_stack.pop().is_some());
